@@ -146,6 +146,7 @@ def text_job(job_id, kind="fjsp", shapes=((2, 1), (1, 1)), NM=2, order_sym=True,
         try:
             g = pgen.FJSPFileGenerator(tmp)
             back = g(batch_size=[B])
+            again = g(batch_size=[B])  # a file-backed environment is asked for data repeatedly (train / val / test datasets, resets)
         finally:
             os.listdir = real_listdir
         if E.obligations:
@@ -156,6 +157,9 @@ def text_job(job_id, kind="fjsp", shapes=((2, 1), (1, 1)), NM=2, order_sym=True,
         ctx.prove(E, f"[{kind}] file generator reports the written numbers of jobs / machines", g.num_jobs == NJ and g.num_mas == NM, cexb)
         if not ok:
             return
+        same = tuple(again["proc_times"].shape) == tuple(back["proc_times"].shape)
+        ctx.prove(E, f"[{kind}] a second request for the same number of instances returns the same instances again (the read cursor wraps around)",
+                  same and all_([T.s_eq(x, y) for x, y in zip(again["proc_times"].a.reshape(-1), back["proc_times"].a.reshape(-1))]), cexb)
         for k, i in enumerate(order):  # read-back row k came from the file of instance i (file names carry the index)
             ctx.prove(E, f"[{kind}] instance {i}: processing times of every machine/operation survive the round trip, padding is zero",
                       all_([T.s_eq(back["proc_times"].a[k, mm, o], proc[i, mm, o]) for mm in range(NM) for o in range(pad_to)]), cexb)
@@ -269,6 +273,15 @@ def npz_job(job_id, case="generic", B=2, n=2, source_filter=None):
     def cexb(E_, neg):
         return [{"kind": "script", "path": core.ROOT + "/vf/torch_side", "module": "persist_side", "func": "run_npz", "model_kind": "plain", "mode": "C19", "params": {"case": case, "B": B, "n": n}}]
 
+    hold_bits = {}
+
+    def cexb_bits(E_, neg):
+        if E_.check(neg) != z3.sat:
+            return []
+        m = E_.model()
+        return [{"kind": "script", "path": core.ROOT + "/vf/torch_side", "module": "persist_side", "func": "run_cvrp_bits", "model_kind": "plain", "mode": "C19",
+                 "params": {"d": [m.eval(x, model_completion=True).as_long() for x in hold_bits["dv"]], "caps": hold_bits["caps"]}}]
+
     def harness():
         du = w.load("rl4co.data.utils")
         fnp = FakeNP()
@@ -302,6 +315,44 @@ def npz_job(job_id, case="generic", B=2, n=2, source_filter=None):
             if ok:
                 ctx.prove(E, "[cvrp load_data] demand shown to the environment = stored demand / stored capacity of the same instance",
                           all_([T.s_eq(back["demand"].a[b, j], T.s_div(dem.a[b, j], cap.a[b])) for b in range(B) for j in range(n)]), cexb)
+        elif case == "cvrp_bits":
+            # the loader's normalisation must be BIT-identical to the in-memory one of the generator (float32(d) / float32(c)):
+            # a 1-ulp difference flips the capacity mask on routes that fill the vehicle exactly
+            from symtorch import scalar as SC
+
+            envm = w.load("rl4co.envs.routing.cvrp.env")
+            envm.load_npz_to_tensordict = du.load_npz_to_tensordict
+            SC.FPMODE[0] = True
+            E.logic = "QF_FPBV"
+            try:
+                caps = [20.0, 25.0, 30.0, 33.0, 37.0, 40.0, 43.0, 45.0, 50.0, 55.0, 60.0, 70.0, 100.0, 150.0][: max(B, 1) * 7]
+                dv = [z3.BitVec(f"d{j}", 8) for j in range(n)]
+                rows_d, rows_ref = [], []
+                for c in caps:
+                    rd, rr = [], []
+                    for j in range(n):
+                        x = z3.FPVal(9.0, SC.FSORT)
+                        r = z3.FPVal(float(np.float32(9) / np.float32(c)), SC.FSORT)
+                        for k in range(8, 0, -1):
+                            x = z3.If(dv[j] == k, z3.FPVal(float(k), SC.FSORT), x)
+                            r = z3.If(dv[j] == k, z3.FPVal(float(np.float32(k) / np.float32(c)), SC.FSORT), r)
+                        rd.append(x)
+                        rr.append(r)
+                    rows_d.append(rd)
+                    rows_ref.append(rr)
+                for x in dv:
+                    E.assume(z3.And(z3.UGE(x, 1), z3.ULE(x, 9)))
+                nb = len(caps)
+                fnp.savez("mem.npz", locs=T.zeros(nb, n, 2), depot=T.zeros(nb, 2), demand=T.Tensor(np.array(rows_d, dtype=object), T.float32), capacity=T.tensor(caps, dtype=T.float32))
+                back = envm.CVRPEnv.load_data("mem.npz")
+                E.obligations = []
+                hold_bits.update(dv=dv, caps=caps)
+                for b, c in enumerate(caps):
+                    ctx.prove(E, f"[cvrp load_data float32] capacity {c:g}: loaded demand is bit-identical to float32(d) / float32(capacity) for every integer demand 1..9",
+                              all_([z3.fpEQ(back["demand"].a[b, j], rows_ref[b][j]) for j in range(n)]), cexb_bits)
+            finally:
+                SC.FPMODE[0] = False
+                E.logic = None
         elif case == "mtvrp":
             envm = w.load("rl4co.envs.routing.mtvrp.env")
             envm.load_npz_to_tensordict = du.load_npz_to_tensordict
